@@ -400,7 +400,39 @@ func checkC17(c *Ctx, r *Report) {
 	// ---- S3 ----
 	checkEnums(c, r, fields)
 
+	// ---- S4 requiredness ----
+	// the YAML decoder requires no key; the generator marks every field whose
+	// json tag lacks omitempty as required. The only keys the schema may
+	// require are those whose absence the code itself rejects.
+	{
+		seen := map[string]bool{}
+		nreq := 0
+		for _, f := range fields {
+			if !f.Exported || f.JSON.Skip || f.JSON.Inline || f.Owner == nil || f.JSON.OmitEmpty {
+				continue
+			}
+			if f.Schema != nil {
+				if _, opt := f.Schema["-"]; opt {
+					continue
+				}
+			}
+			key := f.Owner.Obj().Name() + "." + f.JSON.Name
+			if seen[key] {
+				continue
+			}
+			seen[key] = true
+			nreq++
+			r.Check(specRequiredKeys[key], "S4-required", "required key "+key, c.pos(f.Var.Pos()),
+				"the json tag has no omitempty, so the published schema requires this key, but the parser and the packagers accept a configuration without it: such a configuration builds and yet fails validation against the schema")
+		}
+		for key := range specRequiredKeys {
+			r.Check(seen[key], "S4-required", "required key "+key, "-", "a configuration without this key is rejected by validation in code; the schema must require it (json tag without omitempty)")
+		}
+		r.Count("required_keys", nreq)
+	}
+
 	// ---- schema command ----
+	checkSchemaOutputFile(c, r)
 	okCmd := false
 	for _, fn := range c.ModFuncs {
 		forEachInstr(fn, func(in ssa.Instruction) {
@@ -553,4 +585,52 @@ func checkEnums(c *Ctx, r *Report, fields []cfgField) {
 		}
 	}
 	r.Floor("S3-enum", len(efs), 6)
+}
+
+// keys whose absence nfpm.Validate / the planner reject (ErrFieldEmpty for
+// name, arch, version; a content entry without destination)
+var specRequiredKeys = map[string]bool{"Info.name": true, "Info.arch": true, "Info.version": true, "Content.dst": true}
+
+// checkSchemaOutputFile: "the published schema is the file the command
+// writes": the command replaces the output file. os.WriteFile and os.Create
+// truncate; an os.OpenFile for writing must say so (O_TRUNC), otherwise the
+// tail of a longer previous file survives.
+func checkSchemaOutputFile(c *Ctx, r *Report) {
+	n := 0
+	for _, fn := range c.ModFuncs {
+		if !strings.HasPrefix(c.funcPkgPath(fn), modPath+"/internal/cmd") && c.funcPkgPath(fn) != modPath+"/cmd/nfpm" {
+			continue
+		}
+		perFn := 0
+		forEachInstr(fn, func(in ssa.Instruction) {
+			call, ok := in.(*ssa.Call)
+			if !ok {
+				return
+			}
+			o := calleeObj(call)
+			if o == nil {
+				return
+			}
+			switch qualifiedName(o) {
+			case "os.WriteFile", "os.Create":
+				n++
+				perFn++
+				r.Pass("output-truncates", fmt.Sprintf("%s: %s#%d replaces the file", c.funcKey(fn), qualifiedName(o), perFn), c.instrPos(call), "truncating by definition")
+			case "os.OpenFile":
+				if openFileReadOnly(call) {
+					return
+				}
+				n++
+				perFn++
+				okT := false
+				if k, ok := call.Call.Args[1].(*ssa.Const); ok && k.Value != nil {
+					// O_TRUNC 0x200, O_APPEND 0x400, O_EXCL 0x80 (linux)
+					okT = k.Int64()&(0x200|0x400|0x80) != 0
+				}
+				r.Check(okT, "output-truncates", fmt.Sprintf("%s: os.OpenFile#%d replaces the file", c.funcKey(fn), perFn), c.instrPos(call),
+					"the file is opened for writing without O_TRUNC (or O_EXCL/O_APPEND): writing a shorter document over an existing file leaves the old tail in place")
+			}
+		})
+	}
+	r.Floor("output-truncates", n, 2)
 }
